@@ -241,6 +241,11 @@ func VerifyWithCustomWOTSParamW(message, signature []uint8, extendedPK [Extended
 	}
 
 	hashFunction := desc.GetHashFunction()
+	if hashFunction != SHA2_256 && hashFunction != SHAKE_128 && hashFunction != SHAKE_256 {
+		// coreHash leaves its output untouched for an unknown hash function, so the
+		// recomputed root would be all zeros whatever the message and signature are
+		return false
+	}
 
 	k := WOTSParamK
 	w := wotsParamW
